@@ -360,6 +360,20 @@ func amlOrphans(tree *ObjectTree) int {
 	return c
 }
 
+// amlStackTop returns the innermost package frames of the current (panicking) stack, for debugging.
+func amlStackTop() string {
+	var out []string
+	for _, l := range strings.Split(string(debug.Stack()), "\n") {
+		if strings.Contains(l, "/aml/") && !strings.Contains(l, "zz_verif") && !strings.Contains(l, "amlcommon") {
+			out = append(out, strings.TrimSpace(l))
+		}
+		if len(out) >= 3 {
+			break
+		}
+	}
+	return strings.Join(out, " <- ")
+}
+
 type amlSession struct {
 	tree    *ObjectTree
 	parser  *Parser
@@ -389,6 +403,9 @@ func (s *amlSession) observe(handle uint8, payload []byte) string {
 		defer func() {
 			if r := recover(); r != nil {
 				outcome = "panic"
+				if os.Getenv("VERIF_AML_DEBUG") != "" {
+					fmt.Fprintf(os.Stderr, "DEBUG parse panic: %v\n%s\n", r, amlStackTop())
+				}
 			}
 		}()
 		if err := s.parser.ParseAML(handle, "DSDT", (*table.SDTHeader)(unsafe.Pointer(&stream[0]))); err != nil {
@@ -416,6 +433,9 @@ func amlObservation(tree *ObjectTree, outcome string, bases []uintptr, tlens []i
 			defer func() {
 				if r := recover(); r != nil {
 					pr = "panic"
+					if os.Getenv("VERIF_AML_DEBUG") != "" {
+						fmt.Fprintf(os.Stderr, "DEBUG print panic: %v\n%s\n", r, amlStackTop())
+					}
 				}
 			}()
 			tree.PrettyPrint(ioutil.Discard)
